@@ -306,3 +306,33 @@ func libDecode(format string, data []byte, dict int) (out []byte, err error, pro
 	}
 	return lzmaDecode(data, dict)
 }
+
+// longStreams: streams whose plaintext (12 KB) exceeds the 4096-byte reader
+// dictionary, so that output has already been delivered when a late fault or
+// cut is met (used with DictCap 4096 and a 16 KiB caller buffer).
+func longStreams() []Stream {
+	text := textBytes(55, 12000)
+	mix := append(append(append([]byte(nil), text[:5000]...), randBytes(55, 3000)...), text[5000:9000]...)
+	var out []Stream
+	out = append(out,
+		Stream{Name: "long-lib-xz-2blocks", Fmt: "xz", Data: mustLibXZ(XZCfg{DictCap: 4096, BlockSize: 7000, Check: 1}, text), Plain: text, Writer: "lib"},
+		Stream{Name: "long-lib-lzma2-mixed", Fmt: "lzma2", Data: mustLibLZMA2(L2Cfg{DictCap: 4096}, mix, []L2Step{{"w", 6000}, {"f", 0}}), Plain: mix, DictSize: 4096, Writer: "lib"},
+		Stream{Name: "long-lib-lzma-eos", Fmt: "lzma", Data: mustLibLZMA(LZCfg{DictCap: 4096}, text), Plain: text, Writer: "lib"},
+		Stream{Name: "long-lib-lzma-size", Fmt: "lzma", Data: mustLibLZMA(LZCfg{DictCap: 4096, Size: int64(len(text))}, text), Plain: text, Writer: "lib"},
+		Stream{Name: "long-lib-lzma-size+eos", Fmt: "lzma", Data: mustLibLZMA(LZCfg{DictCap: 4096, Size: int64(len(text)), EOS: true}, text), Plain: text, Writer: "lib"},
+	)
+	return out
+}
+
+// libDecodeBuf is libDecode with an explicit caller buffer size.
+func libDecodeBuf(format string, data []byte, dict, bufSize int) (out []byte, err error, proto string, pan *core.PanicInfo) {
+	pan = core.Guard(func() {
+		rd, e := openReaderDict(format, bytes.NewReader(data), dict)
+		if e != nil {
+			err = e
+			return
+		}
+		out, err, proto = readAll(rd, bufSize, 256<<20)
+	})
+	return
+}
